@@ -98,12 +98,22 @@ def _objects():
     f = stix2.v21.File(name="x", size=0, extensions={"ntfs-ext": {"sid": "s", "alternate_data_streams": [{"name": "a", "size": 0}]}})
     ind = stix2.v20.Indicator(pattern="[a:b = 1]", labels=["x", "x"], revoked=False,
                               external_references=[{"source_name": "src", "description": ""}])
-    return [mal, f, ind]
+    # a custom type declared with extension_name: its own extension entry is added after the constructor's own checks; built WITH a granular marking
+    own = "extension-definition--0d0d0d0d-f010-4473-83ec-1edf84858f4c"
+
+    @stix2.v21.CustomObject("x-c08-own", [("name", stix2.properties.StringProperty(required=True)), ("tags", stix2.properties.ListProperty(stix2.properties.StringProperty))],
+                            extension_name=own)
+    class Own(object):
+        pass
+    cust = Own(name="n", tags=["t", "t"], granular_markings=[{"marking_ref": M1, "selectors": ["name"]}])
+    return [mal, f, ind, cust]
 
 
 OBJS = _objects()
+NOBJ = len(OBJS)
 JS = [json.loads(o.serialize()) for o in OBJS]
-PATHS = [enum_paths(j) for j in JS]
+# (paths into granular_markings itself are left out: an operation that rewrites the marking list can invalidate such a selector half way)
+PATHS = [[p for p in enum_paths(j) if not p.startswith("granular_markings")] for j in JS]
 NEAR = ["nope", "name.x", "external_references.[2]", "external_references.[0].nope", "labels.[2]", "extensions.ntfs-ext.nope",
         "malware_types.[2]", "kill_chain_phases.[0].kill_chain_name.x", "extensions.[0]", "confidence.[0]"]
 TABLES = [sorted(set(p)) + NEAR for p in PATHS]
@@ -112,10 +122,10 @@ NMAX = max(len(t) for t in TABLES)
 
 def sel_objects(oi: int, si: int) -> bool:
     """
-    pre: 0 <= oi < 3 and 0 <= si < NMAX
+    pre: 0 <= oi < NOBJ and 0 <= si < NMAX
     post: _
     """
-    oi = pick(oi, 3)
+    oi = pick(oi, NOBJ)
     table = TABLES[oi]
     if si >= len(table):
         return True
@@ -149,6 +159,18 @@ def run_object_case(oi, si):
     # 2b. every marking function validates the selector, on an unmarked object and on a marked one
     if oi != 1:
         marked = markings.add_markings(obj, M1, [PATHS[oi][0]])
+        omarked = markings.add_markings(obj, M1)                      # carries an object-level marking
+        for target in (omarked,):
+            for fn in (lambda o: markings.is_marked(o, selectors=[sel], inherited=True), lambda o: markings.is_marked(o, None, [sel], True, True),
+                       lambda o: markings.get_markings(o, [sel], inherited=True), lambda o: o.is_marked(selectors=sel, inherited=True) if hasattr(o, "is_marked") else
+                       markings.is_marked(o, selectors=sel, inherited=True)):
+                try:
+                    fn(target)
+                    got = True
+                except (InvalidSelectorError, InvalidValueError):
+                    got = False
+                if got != want:
+                    return False
         for target in (obj, marked):
             for fn in (lambda o: markings.get_markings(o, [sel]), lambda o: markings.get_markings(o, sel, inherited=True, descendants=True),
                        lambda o: markings.is_marked(o, M1, [sel]), lambda o: markings.is_marked(o, selectors=[sel]),
